@@ -22,7 +22,7 @@ JUDGE_PROPS["C03"] = ["C02"]       # an edge that loses, duplicates or invents a
 JUDGE_PROPS["C10"] = ["C04"]       # store side of "never stranded" = no lost wake-up   # "retrievable from t+d onwards" is judged by the wake-up rule on timed stores
 
 # properties that (also) depend on the node automata and factory-level judges
-NODE_PROPS = {"C03", "C08", "C09", "C10", "C15", "C16", "C17", "C18", "C19", "C20"}
+NODE_PROPS = {"C03", "C06", "C08", "C09", "C10", "C15", "C16", "C17", "C18", "C19", "C20"}
 
 def node_stage(pid, tier, seed, known, cov, violations, known_hits):
     import node_family
@@ -130,6 +130,18 @@ def config_stage(pid, tier, seed, cov, violations, known_hits=None):
     cov["evaluations"] += r["configs"]; cov["distinct_nontrivial"] += r["configs"] - r["outcomes"].get("ok", 0)
     cov["traces_validated_against_impl"] += r["configs"] - len(r["divergences"])
     say(f"[check {pid}] family config: {r['configs']} configurations, {len(r['divergences'])} divergences from the validation model")
+    # parameters of Fleet and both conveyors (no validation model: the rule is the property's own list)
+    ep = cf.run_edge_params()
+    cov["families"]["edge-parameters"] = dict(cases=ep["cases"], outcomes=ep["outcomes"], violations=len(ep["viol"]), attributed_to_KF_D8=ep["kf_d8"])
+    cov["evaluations"] += ep["cases"]
+    if ep["kf_d8"] and known_hits is not None:
+        known_hits["KF-D8"] = known_hits.get("KF-D8", 0) + ep["kf_d8"]
+    say(f"[check {pid}] family edge-parameters: {ep['cases']} Fleet / conveyor parameter combinations, {len(ep['viol'])} violations")
+    if ep["viol"]:
+        kind, params, valid, o, msg = ep["viol"][0]
+        path = checklib.write_replay(pid, seed, "edge-config", None, None, dict(edge_kind=kind, parameters=repr(params), valid=valid, observed=o, message=msg,
+                                     cases_failing=len(ep["viol"])))
+        violations.append((path, msg))
     def invalid(c):
         return (c["cap"] != "pos" or c["mode"] == "0" or "neg" in (c["bufDelay"], c["iat"], c["pd"], c["setup"]) or
                 (c["iat"] == "zero" and c["blk"] == "0") or "0" in (c["srcConn"], c["machIn"], c["machOut"], c["sinkConn"]) or
